@@ -172,6 +172,25 @@ pub fn case_gen(reg: Arc<Reg>, eligible: Vec<usize>, opts: GenOpts) -> GenFn {
     })
 }
 
+/// now and then one member of one object of the payload is repeated verbatim (a value source that keeps
+/// duplicate keys): loops that count matched keys, stop early or special-case a second occurrence see it
+pub fn with_repeated_member(gen: GenFn) -> GenFn {
+    Arc::new(move |rng| {
+        let mut c = gen(rng);
+        if rng.random_range(0..12) == 0 {
+            let n = c.payload.count_objects();
+            if n > 0 && c.payload.size() < 400 {
+                let times = 1 + (rng.random_range(0..4) == 0) as usize;
+                for _ in 0..times {
+                    let (which, member, at) = (rng.random_range(0..n), rng.random_range(0..64usize), rng.random_range(0..64usize));
+                    c.payload = c.payload.with_cloned_member(which, member, at);
+                }
+            }
+        }
+        c
+    })
+}
+
 pub fn src_for(case: &Case) -> Src {
     if case.payload.has_dup_keys() || case.payload.has_nonfinite() || case.aux & 1 == 0 {
         Src::Ov
